@@ -252,6 +252,26 @@ fn corpus() -> Vec<Case> {
         ],
         tag: "corpus-reinsert",
     });
+    // (6) more than one leaf in the VECTOR tree (> 510 cells) with a re-inserted vector whose two
+    //     cells straddle the split point; cheap parameters.  Also the witness of the repaired
+    //     stale-root defect for the vector tree.
+    {
+        let mut ops = vec![];
+        for i in 0..509u32 {
+            ops.push(Op::Ins { id: i, v: vec![(i % 23) as i32, (i / 23) as i32], force: Some(0) });
+        }
+        ops.push(Op::Ins { id: 254, v: vec![40, 40], force: Some(0) });
+        ops.push(Op::Ins { id: 600, v: vec![-3, -3], force: Some(0) });
+        let probes = vec![
+            Op::Search { q: vec![40, 40], k: 3 },
+            Op::Search { q: vec![1, 11], k: 5 },
+            Op::Search { q: vec![-3, -3], k: 2 },
+        ];
+        ops.extend(probes.iter().cloned());
+        ops.push(Op::Reopen { close: true });
+        ops.extend(probes.iter().cloned());
+        cs.push(Case { m: 2, efc: 2, efs: 40, nodes: 601, ops, tag: "corpus-vecsplit" });
+    }
     cs
 }
 
@@ -383,7 +403,9 @@ fn run_case(c: &Case, base: &std::path::Path) -> Result<Outcome, String> {
                         for (id, dist) in &v {
                             let sq = ((*dist as f64) * (*dist as f64)).round();
                             let dd = if sq.is_finite() && sq >= 0.0 { sq as u64 } else { u64::MAX };
-                            if !(dd <= 1 << 16 && (dd as f32).sqrt().to_bits() == dist.to_bits()) {
+                            // an empty zip sums to -0.0 and sqrt(-0.0) = -0.0: a zero distance
+                            let zero = *dist == 0.0 && dd == 0;
+                            if !(zero || (dd <= 1 << 16 && (dd as f32).sqrt().to_bits() == dist.to_bits())) {
                                 out.fails.push((None, format!("reported distance {dist:?} (bits {:#x}) of node {id} is not the f32 square root of an integer <= 2^16", dist.to_bits())));
                             }
                             r.push((*id, dd));
@@ -474,7 +496,7 @@ fn main() {
     let a = args();
     quiet_panics();
     let mut r = Rng::new(a.seed);
-    let mut cw = CaseWriter::new(&a.out, "Corr.C31", 1);
+    let mut cw = CaseWriter::new(&a.out, "Corr.C31", 6);
     let mut rep = Report::new(&a.out);
     let mut hist = BTreeMap::<String, u64>::new();
     let mut distinct = BTreeSet::<String>::new();
